@@ -1376,4 +1376,505 @@ theorem enqueue_status (cfg : Cfg) (s : State) (p : PinSpec) (typ : OpType) (ht 
     · intro _; simp [replaceSt, newOpRec]
     · intro e; cases e
 
+/-! ### no operation is lost (Q1 capacity, Q2) -/
+
+/-- second part of the invariant (Q1 capacity, Q2): no live operation of the table is lost -/
+structure Inv2 (cfg : Cfg) (s : State) : Prop where
+  capPin : s.pinQ.length ≤ cfg.cap
+  capUnpin : s.unpinQ.length ≤ cfg.cap
+  queuedIn : ∀ c i, s.cur c = some i → (s.ops i).cancelled = false → (s.ops i).phase = .queued →
+    i ∈ s.pinQ ∨ i ∈ s.unpinQ
+  progIn : ∀ c i, s.cur c = some i → (s.ops i).cancelled = false → (s.ops i).phase = .inProgress →
+    ∃ k ∈ s.calls, k.op = i
+
+theorem inv2_init (cfg : Cfg) : Inv2 cfg init := by
+  constructor <;> simp [init]
+
+theorem inv2_lose (cfg : Cfg) (s : State) (c : Nat) (h : Inv2 cfg s) : Inv2 cfg (lose s c) := by
+  obtain ⟨a, b, c', d⟩ := h
+  exact ⟨a, b, c', d⟩
+
+theorem inv2_effect (cfg : Cfg) (s : State) (i : Nat) (h : Inv2 cfg s) : Inv2 cfg (effect s i) := by
+  unfold effect
+  cases hf : findCall s i with
+  | none => exact h
+  | some k =>
+    simp only
+    split_ifs with hg
+    · exact h
+    · obtain ⟨a, b, c', d⟩ := h
+      change Inv2 cfg { s with daemon := _, calls := s.calls.map (setEff i) }
+      refine ⟨a, b, c', ?_⟩
+      intro c j hc hl hp
+      obtain ⟨k0, hk0, e0⟩ := d c j hc hl hp
+      exact ⟨setEff i k0, List.mem_map.2 ⟨k0, hk0, rfl⟩, by rw [setEff_op]; exact e0⟩
+
+theorem inv2_reap (cfg : Cfg) (s : State) (i : Nat) (h : Inv2 cfg s) : Inv2 cfg (reap s i) := by
+  unfold reap
+  cases hf : findCall s i with
+  | none => exact h
+  | some k =>
+    simp only
+    split_ifs with hg
+    · obtain ⟨a, b, c', d⟩ := h
+      refine ⟨a, b, c', ?_⟩
+      intro c j hc hl hp
+      obtain ⟨k0, hk0, e0⟩ := d c j hc hl hp
+      refine ⟨k0, mem_dropCall.2 ⟨hk0, ?_⟩, e0⟩
+      rw [e0]; intro e; subst e; simp only [] at hl; rw [hg] at hl; cases hl
+    · exact h
+
+theorem inv2_retOk (cfg : Cfg) (s : State) (i : Nat) (hi : Inv s) (h : Inv2 cfg s) : Inv2 cfg (retOk s i) := by
+  unfold retOk
+  cases hf : findCall s i with
+  | none => exact h
+  | some k =>
+    obtain ⟨hk, hki⟩ := findCall_some hf
+    simp only
+    by_cases hg : ((s.ops i).cancelled || !k.eff) = true
+    · rw [if_pos hg]; exact h
+    · rw [if_neg hg]
+      have hl : (s.ops i).cancelled = false := by
+        cases hx : (s.ops i).cancelled <;> simp [hx] at hg ⊢
+      have hcur : s.cur (s.ops i).cid = some i := by
+        have := hi.callCur k hk (by rw [hki]; exact hl)
+        rw [hki] at this; exact this
+      rw [if_pos hcur]
+      have h6 := hi.curCid
+      obtain ⟨a, b, c', d⟩ := h
+      refine ⟨a, b, ?_, ?_⟩
+      · intro c j hc; simp only [upd_apply] at *; grind
+      · intro c j hc hl' hp
+        simp only [mem_dropCall]
+        simp only [upd_apply] at hc hl' hp
+        grind
+
+theorem inv2_retErr (cfg : Cfg) (s : State) (i : Nat) (h : Inv2 cfg s) : Inv2 cfg (retErr s i) := by
+  unfold retErr
+  cases hf : findCall s i with
+  | none => exact h
+  | some k =>
+    simp only
+    by_cases hg : (s.ops i).cancelled = true
+    · rw [if_pos hg]; exact h
+    · rw [if_neg hg]
+      obtain ⟨a, b, c', d⟩ := h
+      refine ⟨a, b, ?_, ?_⟩
+      · intro c j hc; simp only [upd_apply] at *; grind
+      · intro c j hc hl' hp
+        simp only [mem_dropCall]
+        simp only [upd_apply] at hc hl' hp
+        grind
+
+theorem inv2_startPin (cfg : Cfg) (s : State) (hi : Inv s) (h : Inv2 cfg s) (i : Nat) (rest : List Nat) (hq : s.pinQ = i :: rest) :
+    Inv2 cfg (startCall { s with pinQ := rest } i .pin) := by
+  obtain ⟨a, b, c', d⟩ := h
+  have hlen : rest.length ≤ cfg.cap := by rw [hq] at a; simp at a; omega
+  have hnd := hi.nodup
+  rw [hq] at hnd
+  have hnotin : i ∉ rest ∧ i ∉ s.unpinQ := by
+    simp only [List.cons_append, List.nodup_cons, List.mem_append] at hnd
+    grind
+  have hmem : ∀ j, j ∈ s.pinQ → j = i ∨ j ∈ rest := by intro j hj; rw [hq] at hj; simpa using hj
+  unfold startCall
+  simp only []
+  split_ifs with hc
+  · refine ⟨hlen, b, ?_, d⟩
+    intro c j hcj hl hp
+    rcases c' c j hcj hl hp with hm | hm
+    · rcases hmem j hm with e | e
+      · subst e; rw [hc] at hl; cases hl
+      · exact Or.inl e
+    · exact Or.inr hm
+  · refine ⟨hlen, b, ?_, ?_⟩
+    · intro c j hcj; simp only [upd_apply] at *; grind
+    · intro c j hcj hl hp
+      simp only [upd_apply, List.mem_append, List.mem_singleton] at *
+      grind
+
+theorem inv2_startUnpin (cfg : Cfg) (s : State) (hi : Inv s) (h : Inv2 cfg s) (i : Nat) (rest : List Nat) (hq : s.unpinQ = i :: rest) :
+    Inv2 cfg (startCall { s with unpinQ := rest } i .unpin) := by
+  obtain ⟨a, b, c', d⟩ := h
+  have hlen : rest.length ≤ cfg.cap := by rw [hq] at b; simp at b; omega
+  have hnd := hi.nodup
+  rw [hq] at hnd
+  have hnotin : i ∉ rest ∧ i ∉ s.pinQ := by
+    simp only [List.nodup_append, List.nodup_cons, List.mem_append, List.mem_cons] at hnd
+    grind
+  have hmem : ∀ j, j ∈ s.unpinQ → j = i ∨ j ∈ rest := by intro j hj; rw [hq] at hj; simpa using hj
+  unfold startCall
+  simp only []
+  split_ifs with hc
+  · refine ⟨a, hlen, ?_, d⟩
+    intro c j hcj hl hp
+    rcases c' c j hcj hl hp with hm | hm
+    · exact Or.inl hm
+    · rcases hmem j hm with e | e
+      · subst e; rw [hc] at hl; cases hl
+      · exact Or.inr e
+  · refine ⟨a, hlen, ?_, ?_⟩
+    · intro c j hcj; simp only [upd_apply] at *; grind
+    · intro c j hcj hl hp
+      simp only [upd_apply, List.mem_append, List.mem_singleton] at *
+      grind
+
+theorem inv2_deqPin (cfg : Cfg) (s : State) (hi : Inv s) (h : Inv2 cfg s) : Inv2 cfg (deqPin cfg s) := by
+  unfold deqPin
+  split_ifs
+  · cases hq : s.pinQ with
+    | nil => exact h
+    | cons i rest => exact inv2_startPin cfg s hi h i rest hq
+  · exact h
+
+theorem inv2_deqUnpin (cfg : Cfg) (s : State) (hi : Inv s) (h : Inv2 cfg s) : Inv2 cfg (deqUnpin s) := by
+  unfold deqUnpin
+  split_ifs
+  · exact h
+  · cases hq : s.unpinQ with
+    | nil => exact h
+    | cons i rest => exact inv2_startUnpin cfg s hi h i rest hq
+
+theorem enqueue_cases2 (cfg : Cfg) (s : State) (p : PinSpec) (typ : OpType) (ht : typ ≠ .remote) :
+    (∃ i, s.cur p.cid = some i ∧ (s.ops i).typ = typ ∧ (s.ops i).phase ≠ .error ∧ (s.ops i).phase ≠ .done ∧
+        enqueue cfg s p typ = (s, .nil)) ∨
+    (((typ = .pin → s.pinQ.length < cfg.cap) ∧ (typ = .unpin → s.unpinQ.length < cfg.cap)) ∧
+      enqueue cfg s p typ =
+        (replaceSt s p.cid (newOpRec p typ .queued false)
+          (if typ = .pin then [s.nextId] else []) (if typ = .unpin then [s.nextId] else []) [] s.shared s.failed, .nil)) ∨
+    enqueue cfg s p typ =
+      (replaceSt s p.cid (newOpRec p typ .error true) [] [] [] s.shared s.failed, .full) := by
+  unfold enqueue
+  rcases trackNew_cases s p typ .queued with ⟨i, h1, h2, h3, h4, h5⟩ | h
+  · left; exact ⟨i, h1, h2, h3, h4, by rw [h5]⟩
+  · right
+    rw [h]
+    cases typ with
+    | remote => exact absurd rfl ht
+    | pin =>
+      simp only [↓reduceIte, reduceCtorEq]
+      by_cases hl : (replaceSt s p.cid (newOpRec p .pin .queued false) [] [] [] s.shared s.failed).pinQ.length < cfg.cap
+      · left; rw [if_pos hl]
+        refine ⟨⟨?_, ?_⟩, ?_⟩
+        · intro _; simpa [replaceSt] using hl
+        · intro e; cases e
+        · simp [replaceSt]
+      · right; rw [if_neg hl]; simp [replaceSt, failOp, upd_upd, newOpRec]
+    | unpin =>
+      simp only [↓reduceIte, reduceCtorEq]
+      by_cases hl : (replaceSt s p.cid (newOpRec p .unpin .queued false) [] [] [] s.shared s.failed).unpinQ.length < cfg.cap
+      · left; rw [if_pos hl]
+        refine ⟨⟨?_, ?_⟩, ?_⟩
+        · intro e; cases e
+        · intro _; simpa [replaceSt] using hl
+        · simp [replaceSt]
+      · right; rw [if_neg hl]; simp [replaceSt, failOp, upd_upd, newOpRec]
+
+theorem inv2_replace (cfg : Cfg) (s : State) (hi : Inv s) (h : Inv2 cfg s) (c : Nat) (o : Op) (pq uq : List Nat) (cl : List Call)
+    (sh : Nat → Option PinSpec) (fl : Nat → Bool)
+    (hlp : (s.pinQ ++ pq).length ≤ cfg.cap) (hlu : (s.unpinQ ++ uq).length ≤ cfg.cap)
+    (hq : o.cancelled = false → o.phase = .queued → s.nextId ∈ pq ∨ s.nextId ∈ uq)
+    (hp : o.cancelled = false → o.phase = .inProgress → ∃ k ∈ cl, k.op = s.nextId) :
+    Inv2 cfg (replaceSt s c o pq uq cl sh fl) := by
+  obtain ⟨a, b, c', d⟩ := h
+  have h1 := hi.curLt
+  have h6 := hi.curCid
+  unfold replaceSt
+  refine ⟨hlp, hlu, ?_, ?_⟩
+  · intro x j hc; simp only [upd_apply, cancelCurOps_apply, List.mem_append] at *; grind
+  · intro x j hc hl hp'
+    simp only [upd_apply, cancelCurOps_apply, List.mem_append] at *
+    grind
+
+theorem inv2_setShared (cfg : Cfg) (s : State) (h : Inv2 cfg s) (sh : Nat → Option PinSpec) (fl : Nat → Bool) :
+    Inv2 cfg { s with shared := sh, failed := fl } := by
+  obtain ⟨a, b, c', d⟩ := h
+  exact ⟨a, b, c', d⟩
+
+theorem inv2_enqueue (cfg : Cfg) (s : State) (hi : Inv s) (h : Inv2 cfg s) (sh : Nat → Option PinSpec) (fl : Nat → Bool)
+    (p : PinSpec) (typ : OpType) (ht : typ ≠ .remote) :
+    Inv2 cfg (enqueue cfg { s with shared := sh, failed := fl } p typ).1 := by
+  rcases enqueue_cases2 cfg { s with shared := sh, failed := fl } p typ ht with ⟨i, _, _, _, _, h5⟩ | ⟨hl, h5⟩ | h5
+  · rw [h5]; exact inv2_setShared cfg s h sh fl
+  · rw [h5]
+    show Inv2 cfg (replaceSt s p.cid _ _ _ _ sh fl)
+    simp only [] at hl
+    apply inv2_replace cfg s hi h
+    · cases typ <;> simp at ht ⊢
+      · have := hl.1 rfl; omega
+      · exact h.capPin
+    · cases typ <;> simp at ht ⊢
+      · exact h.capUnpin
+      · have := hl.2 rfl; omega
+    · intro _ _; cases typ <;> simp at ht ⊢
+    · intro _ hp; simp [newOpRec] at hp
+  · rw [h5]
+    show Inv2 cfg (replaceSt s p.cid _ _ _ _ sh fl)
+    apply inv2_replace cfg s hi h
+    · simpa using h.capPin
+    · simpa using h.capUnpin
+    · intro hc; simp [newOpRec] at hc
+    · intro hc; simp [newOpRec] at hc
+
+theorem inv2_untrack (cfg : Cfg) (s : State) (c : Nat) (hi : Inv s) (h : Inv2 cfg s) : Inv2 cfg (untrack cfg s c).1 := by
+  unfold untrack
+  exact inv2_enqueue cfg s hi h _ _ _ _ (by intro e; cases e)
+
+theorem inv2_recover (cfg : Cfg) (s : State) (c : Nat) (hi : Inv s) (h : Inv2 cfg s) : Inv2 cfg (recover cfg s c).1 := by
+  unfold recover recoverWith
+  cases hs : statusOf s c <;> simp only [] <;> try exact h
+  · exact inv2_enqueue cfg s hi h s.shared s.failed _ _ (by intro e; cases e)
+  · exact inv2_enqueue cfg s hi h s.shared s.failed _ _ (by intro e; cases e)
+  · exact inv2_enqueue cfg s hi h s.shared s.failed _ _ (by intro e; cases e)
+
+theorem inv2_track (cfg : Cfg) (s : State) (p : PinSpec) (hi : Inv s) (h : Inv2 cfg s) : Inv2 cfg (track cfg s p).1 := by
+  unfold track
+  cases hk : p.kind with
+  | here => simp only [↓reduceIte]; exact inv2_enqueue cfg s hi h _ _ _ _ (by intro e; cases e)
+  | sharded => simp only [reduceCtorEq, ↓reduceIte]; exact inv2_setShared cfg s h _ _
+  | remote =>
+    simp only [reduceCtorEq, ↓reduceIte]
+    rcases trackNew_cases { s with shared := upd s.shared p.cid (some p), failed := s.failed } p .remote .inProgress
+      with ⟨i, h1, h2, h3, h4, h5⟩ | h5
+    · rw [h5]; exact inv2_setShared cfg s h _ _
+    · rw [h5]
+      simp only []
+      have : ({ replaceSt { s with shared := upd s.shared p.cid (some p), failed := s.failed } p.cid
+                  (newOpRec p .remote .inProgress false) [] [] [] (upd s.shared p.cid (some p)) s.failed with
+                calls := (replaceSt { s with shared := upd s.shared p.cid (some p), failed := s.failed } p.cid
+                  (newOpRec p .remote .inProgress false) [] [] [] (upd s.shared p.cid (some p)) s.failed).calls ++
+                  [{ op := s.nextId, kind := .unpin, sync := true, eff := false }] } : State) =
+          replaceSt s p.cid (newOpRec p .remote .inProgress false) [] [] [{ op := s.nextId, kind := .unpin, sync := true, eff := false }]
+            (upd s.shared p.cid (some p)) s.failed := by
+        simp [replaceSt, cancelCurOps]
+      rw [this]
+      apply inv2_replace cfg s hi h
+      · simpa using h.capPin
+      · simpa using h.capUnpin
+      · intro _ hp; simp [newOpRec] at hp
+      · intro _ _; exact ⟨_, List.mem_singleton.2 rfl, rfl⟩
+
+theorem inv2_step (cfg : Cfg) (s : State) (e : Ev) (hi : Inv s) (h : Inv2 cfg s) : Inv2 cfg (step cfg s e) := by
+  unfold step stepRet
+  cases e with
+  | track p => exact inv2_track cfg s p hi h
+  | untrack c => exact inv2_untrack cfg s c hi h
+  | recover c => exact inv2_recover cfg s c hi h
+  | deqPin => exact inv2_deqPin cfg s hi h
+  | deqUnpin => exact inv2_deqUnpin cfg s hi h
+  | effect i => exact inv2_effect cfg s i h
+  | retOk i => exact inv2_retOk cfg s i hi h
+  | retErr i => exact inv2_retErr cfg s i h
+  | reap i => exact inv2_reap cfg s i h
+  | lose c => exact inv2_lose cfg s c h
+
+theorem inv2_reachable {cfg : Cfg} {s : State} (h : Reachable cfg s) : Inv2 cfg s := by
+  induction h with
+  | init => exact inv2_init cfg
+  | step e hr ih => exact inv2_step cfg _ e (inv_reachable hr) ih
+
+/-- nothing in the channels, nothing at the daemon: then no table entry is queued or in progress, i.e. the
+    state is observationally quiescent — no operation is ever lost -/
+theorem idle_quiescent {cfg : Cfg} {s : State} (n : Nat) (hi : Inv s) (h : Inv2 cfg s)
+    (hp : s.pinQ = []) (hu : s.unpinQ = []) (hc : s.calls = []) : quiescent n (observe s) = true := by
+  rw [quiescent_iff]
+  refine ⟨?_, ?_⟩
+  · intro k hk; rw [hc] at hk; cases hk
+  intro c _
+  unfold statusOf
+  cases hcur : s.cur c with
+  | none =>
+    simp only []
+    cases hsh : s.shared c with
+    | none => rfl
+    | some p =>
+      simp only []
+      cases hk : p.kind <;> simp only [] <;> try rfl
+      split_ifs <;> rfl
+  | some i =>
+    simp only []
+    have hq := h.queuedIn c i hcur
+    have hg := h.progIn c i hcur
+    have hcc := hi.curCancelled c i hcur
+    rw [hp, hu] at hq
+    rw [hc] at hg
+    cases ht : (s.ops i).typ <;> cases hph : (s.ops i).phase <;> simp [opStatus, ht, hph, ongoing] <;>
+      cases hx : (s.ops i).cancelled <;> simp [hx, hph] at hq hg hcc
+
+/-! ### activity quiesces: internal steps cannot go on forever -/
+
+def callWeight (k : Call) : Nat := if k.eff then 1 else 2
+
+def work (s : State) : Nat := 3 * (s.pinQ.length + s.unpinQ.length) + (s.calls.map callWeight).sum
+
+def internalEv : Ev → Bool
+  | .deqPin | .deqUnpin | .effect _ | .retOk _ | .retErr _ | .reap _ => true
+  | _ => false
+
+theorem sum_filter_lt {l : List Call} {i : Nat} {k : Call} (hk : k ∈ l) (hki : k.op = i) :
+    ((l.filter (fun k => k.op != i)).map callWeight).sum < (l.map callWeight).sum := by
+  have hle : ∀ l : List Call, ((l.filter (fun k => k.op != i)).map callWeight).sum ≤ (l.map callWeight).sum := by
+    intro l
+    induction l with
+    | nil => simp
+    | cons y ys ihy =>
+      simp only [List.filter_cons]
+      split_ifs <;> simp only [List.map_cons, List.sum_cons] <;> omega
+  have hpos : ∀ y : Call, 1 ≤ callWeight y := by intro y; unfold callWeight; split_ifs <;> omega
+  induction l with
+  | nil => cases hk
+  | cons x xs ih =>
+    rcases List.mem_cons.1 hk with e | e
+    · subst e
+      simp only [List.filter_cons, hki, bne_self_eq_false, Bool.false_eq_true, if_false, List.map_cons, List.sum_cons]
+      have := hle xs
+      have := hpos k
+      omega
+    · have := ih e
+      simp only [List.filter_cons]
+      split_ifs <;> simp only [List.map_cons, List.sum_cons] <;> omega
+
+theorem sum_dropCall_lt {s : State} {i : Nat} {k : Call} (hk : k ∈ s.calls) (hki : k.op = i) :
+    ((dropCall s i).map callWeight).sum < (s.calls.map callWeight).sum := sum_filter_lt hk hki
+
+theorem sum_setEff_lt {l : List Call} {i : Nat} {k : Call} (hk : k ∈ l) (hki : k.op = i) (he : k.eff = false) :
+    ((l.map (setEff i)).map callWeight).sum < (l.map callWeight).sum := by
+  have hle : ∀ y : Call, callWeight (setEff i y) ≤ callWeight y := by
+    intro y; unfold callWeight setEff; split_ifs <;> simp_all
+  induction l with
+  | nil => cases hk
+  | cons x xs ih =>
+    have hles : ((xs.map (setEff i)).map callWeight).sum ≤ (xs.map callWeight).sum := by
+      clear ih hk
+      induction xs with
+      | nil => simp
+      | cons y ys ihy => simp only [List.map_cons, List.sum_cons]; have := hle y; omega
+    simp only [List.map_cons, List.sum_cons]
+    rcases List.mem_cons.1 hk with e | e
+    · subst e
+      have : callWeight (setEff i k) < callWeight k := by
+        unfold callWeight setEff; simp [hki, he]
+      omega
+    · have := ih e
+      have := hle x
+      omega
+
+/-- an internal step either does nothing (it is not enabled) or strictly decreases the outstanding work -/
+theorem internal_step_decreases (cfg : Cfg) (s : State) (e : Ev) (he : internalEv e = true) :
+    step cfg s e = s ∨ work (step cfg s e) < work s := by
+  cases e <;> simp only [internalEv, Bool.false_eq_true] at he <;> simp only [step, stepRet]
+  case deqPin =>
+    unfold deqPin
+    split_ifs
+    · cases hq : s.pinQ with
+      | nil => left; rfl
+      | cons i rest =>
+        right
+        simp only [startCall]
+        split_ifs <;> simp [work, hq, callWeight] <;> omega
+    · left; rfl
+  case deqUnpin =>
+    unfold deqUnpin
+    split_ifs
+    · left; rfl
+    · cases hq : s.unpinQ with
+      | nil => left; rfl
+      | cons i rest =>
+        right
+        simp only [startCall]
+        split_ifs <;> simp [work, hq, callWeight] <;> omega
+  case effect i =>
+    unfold effect
+    cases hf : findCall s i with
+    | none => left; rfl
+    | some k =>
+      obtain ⟨hk, hki⟩ := findCall_some hf
+      simp only
+      split_ifs with hg
+      · left; rfl
+      · right
+        simp only [Bool.or_eq_true, not_or, Bool.not_eq_true] at hg
+        have := sum_setEff_lt hk hki hg.2
+        change work { s with daemon := _, calls := s.calls.map (setEff i) } < work s
+        simp only [work]
+        omega
+  case retOk i =>
+    unfold retOk
+    cases hf : findCall s i with
+    | none => left; rfl
+    | some k =>
+      obtain ⟨hk, hki⟩ := findCall_some hf
+      simp only
+      split_ifs with hg
+      · left; rfl
+      · right; have := sum_dropCall_lt hk hki; simp only [work]; omega
+      · right; have := sum_dropCall_lt hk hki; simp only [work]; omega
+  case retErr i =>
+    unfold retErr
+    cases hf : findCall s i with
+    | none => left; rfl
+    | some k =>
+      obtain ⟨hk, hki⟩ := findCall_some hf
+      simp only
+      by_cases hg : (s.ops i).cancelled = true
+      · rw [if_pos hg]; left; rfl
+      · rw [if_neg hg]; right; have := sum_dropCall_lt hk hki; simp only [work]; omega
+  case reap i =>
+    unfold reap
+    cases hf : findCall s i with
+    | none => left; rfl
+    | some k =>
+      obtain ⟨hk, hki⟩ := findCall_some hf
+      simp only
+      split_ifs with hg
+      · right; have := sum_dropCall_lt hk hki; simp only [work]; omega
+      · left; rfl
+
+/-- no outstanding work = the channels are empty and nothing is parked -/
+theorem work_zero {s : State} (h : work s = 0) : s.pinQ = [] ∧ s.unpinQ = [] ∧ s.calls = [] := by
+  unfold work at h
+  have h1 : s.pinQ.length = 0 := by omega
+  have h2 : s.unpinQ.length = 0 := by omega
+  refine ⟨List.length_eq_zero_iff.1 h1, List.length_eq_zero_iff.1 h2, ?_⟩
+  cases hc : s.calls with
+  | nil => rfl
+  | cons k ks =>
+    rw [hc] at h
+    simp only [List.map_cons, List.sum_cons] at h
+    have : 1 ≤ callWeight k := by unfold callWeight; split_ifs <;> omega
+    omega
+
+/-- while work is outstanding some internal step is enabled (a parked call can be answered or, cancelled, leaves;
+    otherwise a free worker takes the head of a channel): with `internal_step_decreases`, the tracker reaches
+    `work = 0` after at most `work s` enabled internal steps once instructions stop -/
+theorem busy_can_step (cfg : Cfg) (s : State) (hw : 1 ≤ cfg.workers) (h : 0 < work s) :
+    ∃ e, internalEv e = true ∧ work (step cfg s e) < work s := by
+  cases hc : s.calls with
+  | cons k ks =>
+    have hf : findCall s k.op = some k := by simp [findCall, hc]
+    have hk : k ∈ s.calls := by rw [hc]; exact List.mem_cons_self
+    have hlt := sum_dropCall_lt hk rfl
+    by_cases hg : (s.ops k.op).cancelled = true
+    · refine ⟨.reap k.op, rfl, ?_⟩
+      simp only [step, stepRet, reap, hf, hg, if_true, work]
+      omega
+    · refine ⟨.retErr k.op, rfl, ?_⟩
+      simp only [step, stepRet, retErr, hf, hg, if_false, work]
+      simp only [Bool.false_eq_true, if_false]
+      omega
+  | nil =>
+    cases hp : s.pinQ with
+    | cons i rest =>
+      refine ⟨.deqPin, rfl, ?_⟩
+      have hb : busyPin s < cfg.workers := by simp [busyPin, hc]; omega
+      simp only [step, stepRet, deqPin, hb, if_true, hp, startCall]
+      split_ifs <;> simp [work, hp, hc, callWeight] <;> omega
+    | nil =>
+      cases hu : s.unpinQ with
+      | nil => simp [work, hc, hp, hu] at h
+      | cons i rest =>
+        refine ⟨.deqUnpin, rfl, ?_⟩
+        have hb : busyUnpin s = false := by simp [busyUnpin, hc]
+        simp only [step, stepRet, deqUnpin, hb, Bool.false_eq_true, if_false, hu, startCall]
+        split_ifs <;> simp [work, hp, hu, hc, callWeight] <;> omega
+
 end CV.C05
